@@ -7,7 +7,8 @@ that touch it (`HistM.step : S → Op → S × Out`).
 |-----------------------------------------------------------------------------------|--------------------------|
 | `Junk.junkid`, parser singletons of `parser.__constructors`, their `ctx`, every   | `S.g : Hist.G`           |
 |   `Context` object with its `_lines` cache (parser/base.py)                        |                          |
-| `DefinesParser.Context.filter_empty_lines` of the singleton's current Context      | `S.incFlag`              |
+| `DefinesParser.Context.filter_empty_lines` of the singleton's current Context      | `S.incFlag` (reset by    |
+|   (written by every walk, reset when a walk STARTS and when a text is read)        |   `walkFl`, `readFl`)    |
 | the entry points `getParser` falls back to (`pkg_resources`, process environment)  | `S.ep` (never written)   |
 | `mozpath.re_cache` (module level dict pattern ↦ compiled regex)                    | `S.reCache`              |
 | `Matcher._cached_re` of every live `Matcher` object                                | `S.matchers` (`MObj`)    |
@@ -478,10 +479,12 @@ def readFl (f : Fmt) (old : Bool) : Bool :=
   | _ => old
 
 /-- `list(p.walk())` on a Context with contents `text`; `fl` = `filter_empty_lines` of the DefinesParser's Context
-    before, the second component = after -/
+    before, the second component = after.  `DefinesParser.walk` starts with `self.ctx.filter_empty_lines = False`
+    ("state of one pass over the file", /repo 0f5119c): whatever an earlier walk of the same Context left is not seen;
+    the flag the pass ends with stays on the Context. -/
 def walkFl (f : Fmt) (text : Array Nat) (fl : Bool) : WalkResult × Bool :=
   match f with
-  | .inc => incWalk text fl
+  | .inc => incWalk text false
   | _ => (walk f text, fl)
 
 /-- `Parser.readUnicode(text)`: `self.ctx = self.Context(text)` — a new Context object (contents `text`, no line
